@@ -6,59 +6,7 @@ import os
 HERE = os.path.dirname(os.path.dirname(os.path.abspath(__file__)))
 ALL = [f'C{i:02d}' for i in range(1, 21)]
 
-CHECKS = {
-    'C13': dict(
-        category='proof',
-        text='Both classification programs (classification.py, the classification block of spending_report.js) are translated '
-             'to Gallina from /repo on every run and C13/Props.v proves them equal on every IEEE double and every tag list '
-             '(and over any numeric structure). The translators are tied by a bit-exact node-vs-CPython differential and a '
-             'vm_compute run of the translated model against the implementation.',
-        design_ref='DESIGN.md §4 C13',
-        note='Trusted: Coq kernel/vm_compute; tools/py2coq.py, tools/js2coq.py + node bundled acorn; the shared abstract '
-             'numeric signature (Python float ops and JS number ops are the same IEEE-754 operations); str.lower vs '
-             'toLowerCase agreement on ASCII images (swept every run). Browser rendering not modelled.',
-        technique='Rocq proof over source-translated models + differential tie'),
-    'C06': dict(
-        category='proof',
-        text='classification.py is translated to Gallina on every run; C06/Props.v proves, for all transaction lists, the '
-             'one-bucket decision table, conservation of |amount| across the six totals, the cash-flow / net-transfer '
-             'formulas, agreement of per-merchant / per-category / per-month sums and counts, and invariance under every '
-             'permutation and every partition of the list. The hand model of the accumulation pass is tied to '
-             'analyze_transactions by a vm_compute correspondence; the same laws are evaluated on implementation outputs.',
-        design_ref='DESIGN.md §4 C06',
-        note='Trusted: Coq kernel/vm_compute; tools/py2coq.py; harness/c06.py generators and comparison. Money is exact '
-             '(integer ticks): float rounding of sums is outside the model; generated amounts are dyadic so the '
-             'implementation is compared exactly. analyze_transactions fold is modelled by hand.',
-        technique='Rocq proof (induction over the transaction list) + translated leaf code + correspondence'),
-    'C03': dict(
-        category='proof',
-        text='A static confinement certificate is regenerated from expr_parser.py on every run (every import, builtin/global call, '
-             'getattr/hasattr site with receiver and name class, attribute called on operand values, ALLOWED_NODES, _eval_ handlers, '
-             'function and string-method tables) and C03/Props.v proves each capability lies inside the confined set and that '
-             'validate_ast accepts a tree iff all its node classes, at any depth, are whitelisted. The implementation is then driven '
-             'with an adversarial expression stream through every entry point (load, transaction and view evaluation, match/let/field/'
-             'tag/transform/variable positions) under sys.addaudithook with deep type checks of values and texts and frame checks; the '
-             'model validate verdict is compared with the loader inside Coq.',
-        design_ref='DESIGN.md §4 C03',
-        note='Trusted: Coq kernel/vm_compute; tools/c03_caps.py (syntactic classification of capability sites); the confined set '
-             'C03/Caps.v is a human-reviewed whitelist; CPython ast.parse and audit events; re/difflib internals. Value-level '
-             'confinement theorems over the evaluator model (coq/theories/Expr) are part of C04/C08; this check does not depend on them.',
-        technique='Rocq proof over a source-extracted capability table + validate model + adversarial differential with audit hook'),
-    'C08': dict(
-        category='proof',
-        text='The table of every expression-evaluation call site in src/tally (what its innermost try catches, what the handler does) '
-             'and the evaluators own Exception->ExpressionError conversion are regenerated from /repo on every run; C08/Props.v proves '
-             'that whatever exception class below Exception is raised at any node, no call site lets it escape and each site observes '
-             'exactly "not applicable" (skip / None / not a member). That a skipped rule has no influence on the result is the engine-model '
-             'theorem c01_false_rules_have_no_influence (C01). The implementation is driven with a catalogue of ill-typed expressions in '
-             'every position (match, let, field, tag, variable, transform, view filter/variable, CSV parsing) and must (a) complete and '
-             '(b) give the result obtained with exactly the failing rules/views deleted.',
-        design_ref='DESIGN.md §4 C08',
-        note='Trusted: Coq kernel/vm_compute; tools/c08_catch_sites.py (syntactic site finder); the modelled Python exception hierarchy '
-             '(only the classes that matter); deletion oracle uses the implementation evaluator to decide which rules fail. Genuine '
-             'defect found and repaired in /repo (fix: 58dcdc1) — before it, TypeError/AttributeError/StopIteration escaped match().',
-        technique='Rocq proof over a source-extracted catch-site table + ill-typed differential with deletion oracle'),
-}
+CHECKS = json.load(open(os.path.join(HERE, 'tools', 'manifest_checks.json')))
 
 PENDING = {}
 
